@@ -5,3 +5,7 @@ NOTES = ("All checks are runtime monitors over executions of the real library (D
          "Exit 0 = held on everything observed, 1 = violation (VIOLATION line + replay file), 2 = inconclusive.")
 NOT_APPLICABLE = {}
 
+
+# Only properties listed here are claimed in MANIFEST.json (a propdef may exist while its monitor is
+# still being validated).
+REGISTERED = ["C01", "C02", "C05", "C06", "C10", "C15"]
